@@ -16,31 +16,31 @@ Open Scope list_scope.
    interleaved with the comments carried by the sub-expressions it printed through
    expr_to_source.  Nothing is duplicated, reordered or invented. *)
 Theorem C09_doc_accounts_for_all_comments :
-  forall e2s np rk w e i, wf_ast e = true ->
-  doc_all_comments (fmtd e2s np rk w e i) = expr_comments e.
+  forall O w e i, wf_ast e = true ->
+  doc_all_comments (fmtd O w e i) = expr_comments e.
 Proof. exact fmtd_accounts_for_all_comments. Qed.
 Check C09_doc_accounts_for_all_comments :
-  forall e2s np rk w e i, wf_ast e = true ->
-  doc_all_comments (fmtd e2s np rk w e i) = expr_comments e.
+  forall O w e i, wf_ast e = true ->
+  doc_all_comments (fmtd O w e i) = expr_comments e.
 Print Assumptions C09_doc_accounts_for_all_comments.
 
 (* doc_comments_preserved: the comments shown are exactly the AST's, provided no expression
    printed through expr_to_source carries a comment (the exclusion = known finding
    C09-opaque-nested, see C09_opaque_comment_refuted). *)
 Theorem C09_doc_comments_preserved :
-  forall e2s np rk w e i, wf_ast e = true ->
-  forallb cfree (doc_opaque (fmtd e2s np rk w e i)) = true ->
-  doc_comments (fmtd e2s np rk w e i) = expr_comments e.
+  forall O w e i, wf_ast e = true ->
+  forallb cfree (doc_opaque (fmtd O w e i)) = true ->
+  doc_comments (fmtd O w e i) = expr_comments e.
 Proof. exact fmtd_comments_preserved. Qed.
 Check C09_doc_comments_preserved :
-  forall e2s np rk w e i, wf_ast e = true ->
-  forallb cfree (doc_opaque (fmtd e2s np rk w e i)) = true ->
-  doc_comments (fmtd e2s np rk w e i) = expr_comments e.
+  forall O w e i, wf_ast e = true ->
+  forallb cfree (doc_opaque (fmtd O w e i)) = true ->
+  doc_comments (fmtd O w e i) = expr_comments e.
 Print Assumptions C09_doc_comments_preserved.
 
 (* the hypotheses are satisfiable by a program with comments in every slot:
      x = [ // a \n 1, // b \n {k: do { // c \n q = 1 // d \n // e \n return q }, // f \n }, // g \n ]   *)
-Definition ex_e2s := e2s_impl (num_text_tbl [(0x3ff0000000000000, "1")]%Z) (needs_parens_tbl parens_table).
+Definition ex_O : oracles := oracles_impl op_info_table [(0x3ff0000000000000, "1")]%Z.
 Definition ex_commented : expr :=
   EAssign "x" (EList [Cm ["// a"] (ENum (nb 0x3ff0000000000000)) None;
                       Cm ["// b"] (ERec [Cm [] (REntry (KStatic "k")
@@ -49,38 +49,38 @@ Definition ex_commented : expr :=
                          (Some "// g")]).
 Example C09_hypotheses_satisfiable :
   wf_ast ex_commented = true /\
-  forallb cfree (doc_opaque (fmtd ex_e2s (needs_parens_tbl parens_table) record_key_impl 80 ex_commented 0)) = true /\
+  forallb cfree (doc_opaque (fmtd ex_O 80 ex_commented 0)) = true /\
   expr_comments ex_commented = ["// a"; "// b"; "// c"; "// d"; "// e"; "// f"; "// g"].
 Proof. vm_compute. repeat split. Qed.
 
 (* REFUTED without the exclusion (known finding C09-opaque-nested): a comment inside a list
    that is the operand of a unary operator is dropped for every width and every oracle. *)
 Lemma C09_opaque_comment_refuted :
-  forall e2s np rk w i,
+  forall O w i,
   let e := EUn Negate (EList [Cm ["// c"] (EId "a") None]) in
-  wf_ast e = true /\ expr_comments e = ["// c"] /\ doc_comments (fmtd e2s np rk w e i) = [].
-Proof. intros. repeat split. subst e. cbn. destruct (fits_single _ _ _ _ _); reflexivity. Qed.
+  wf_ast e = true /\ expr_comments e = ["// c"] /\ doc_comments (fmtd O w e i) = [].
+Proof. intros. repeat split. subst e. cbn. destruct (fits_single _ _ _ _); reflexivity. Qed.
 
 (* driver_comments_preserved, library driver (blots-wasm format_blots; mirrored in the harness) *)
 Theorem C09_lib_driver_accounts :
-  forall e2s np rk mw p d, forallb wf_stmt p = true ->
-  format_lib e2s np rk mw p = Some d -> doc_all_comments d = program_comments p.
+  forall O mw p d, forallb wf_stmt p = true ->
+  format_lib O mw p = Some d -> doc_all_comments d = program_comments p.
 Proof. exact lib_driver_accounts. Qed.
 Check C09_lib_driver_accounts :
-  forall e2s np rk mw p d, forallb wf_stmt p = true ->
-  format_lib e2s np rk mw p = Some d -> doc_all_comments d = program_comments p.
+  forall O mw p d, forallb wf_stmt p = true ->
+  format_lib O mw p = Some d -> doc_all_comments d = program_comments p.
 Print Assumptions C09_lib_driver_accounts.
 
 (* driver_comments_preserved, CLI driver (blots --format; until 9255709 this loop looked only at
    the first inner pair of a statement and dropped every end-of-line comment — F19, fixed; the
    witness `x = 1 // note` stays in corpus/C09) *)
 Theorem C09_cli_driver_accounts :
-  forall e2s np rk p, forallb wf_stmt p = true ->
-  doc_all_comments (format_cli e2s np rk p) = program_comments p.
+  forall O p, forallb wf_stmt p = true ->
+  doc_all_comments (format_cli O p) = program_comments p.
 Proof. exact cli_driver_accounts. Qed.
 Check C09_cli_driver_accounts :
-  forall e2s np rk p, forallb wf_stmt p = true ->
-  doc_all_comments (format_cli e2s np rk p) = program_comments p.
+  forall O p, forallb wf_stmt p = true ->
+  doc_all_comments (format_cli O p) = program_comments p.
 Print Assumptions C09_cli_driver_accounts.
 
 (* render_scan: the lexer-level scan (outside string literals) of the rendered text of a document
@@ -97,7 +97,7 @@ Print Assumptions C09_render_scan.
 (* wf_doc holds for the document of the example program above (so the chain
    scan (text) = doc comments = AST comments is non-vacuous) *)
 Example C09_render_scan_example :
-  let d := fmtd ex_e2s (needs_parens_tbl parens_table) record_key_impl 80 ex_commented 0 in
+  let d := fmtd ex_O 80 ex_commented 0 in
   wf_doc d /\ scan_comments (render d) = expr_comments ex_commented.
 Proof. vm_compute. repeat split. Qed.
 
@@ -110,38 +110,38 @@ Proof. vm_compute. repeat split. Qed.
    (b) the texts printed through expr_to_source that occur in the document are lexically
        self-contained (opaque_texts_neutral; expr_to_source is library-side here). *)
 Theorem C09_fmtd_wf_doc :
-  forall e2s np rk key_ok, (forall k, key_ok k = true -> neutral (rk k)) ->
+  forall O key_ok, (forall k, key_ok k = true -> neutral (o_record_key O k)) ->
   forall w e i, atoms_ok key_ok e = true ->
-  opaque_texts_neutral (fmtd e2s np rk w e i) -> wf_doc (fmtd e2s np rk w e i).
+  opaque_texts_neutral (fmtd O w e i) -> wf_doc (fmtd O w e i).
 Proof. exact fmtd_wf_doc. Qed.
 Check C09_fmtd_wf_doc :
-  forall e2s np rk key_ok, (forall k, key_ok k = true -> neutral (rk k)) ->
+  forall O key_ok, (forall k, key_ok k = true -> neutral (o_record_key O k)) ->
   forall w e i, atoms_ok key_ok e = true ->
-  opaque_texts_neutral (fmtd e2s np rk w e i) -> wf_doc (fmtd e2s np rk w e i).
+  opaque_texts_neutral (fmtd O w e i) -> wf_doc (fmtd O w e i).
 Print Assumptions C09_fmtd_wf_doc.
 
 (* the chain: the comments a lexer-level scan finds in the text the formatter prints for an
    expression are the comments of its AST, in order (outside known finding C09-opaque-nested) *)
 Theorem C09_fmtd_text_comments :
-  forall e2s np rk key_ok, (forall k, key_ok k = true -> neutral (rk k)) ->
+  forall O key_ok, (forall k, key_ok k = true -> neutral (o_record_key O k)) ->
   forall w e i, wf_ast e = true -> atoms_ok key_ok e = true ->
-  forallb cfree (doc_opaque (fmtd e2s np rk w e i)) = true ->
-  opaque_texts_neutral (fmtd e2s np rk w e i) ->
-  scan_comments (render (fmtd e2s np rk w e i)) = expr_comments e.
+  forallb cfree (doc_opaque (fmtd O w e i)) = true ->
+  opaque_texts_neutral (fmtd O w e i) ->
+  scan_comments (render (fmtd O w e i)) = expr_comments e.
 Proof. exact fmtd_text_comments. Qed.
 Check C09_fmtd_text_comments :
-  forall e2s np rk key_ok, (forall k, key_ok k = true -> neutral (rk k)) ->
+  forall O key_ok, (forall k, key_ok k = true -> neutral (o_record_key O k)) ->
   forall w e i, wf_ast e = true -> atoms_ok key_ok e = true ->
-  forallb cfree (doc_opaque (fmtd e2s np rk w e i)) = true ->
-  opaque_texts_neutral (fmtd e2s np rk w e i) ->
-  scan_comments (render (fmtd e2s np rk w e i)) = expr_comments e.
+  forallb cfree (doc_opaque (fmtd O w e i)) = true ->
+  opaque_texts_neutral (fmtd O w e i) ->
+  scan_comments (render (fmtd O w e i)) = expr_comments e.
 Print Assumptions C09_fmtd_text_comments.
 
 (* all hypotheses hold for the example program with the executable oracles *)
 Example C09_text_comments_hypotheses_satisfiable :
   (forall k, is_valid_identifier k = true -> neutral (record_key_impl k)) /\
   atoms_ok is_valid_identifier ex_commented = true /\
-  opaque_texts_neutral (fmtd ex_e2s (needs_parens_tbl parens_table) record_key_impl 80 ex_commented 0).
+  opaque_texts_neutral (fmtd ex_O 80 ex_commented 0).
 Proof.
   split; [exact record_key_impl_neutral|]. split; [reflexivity|].
   vm_compute. repeat constructor.
@@ -152,30 +152,30 @@ Qed.
    order.  stmt_ok = per statement the hypotheses of C09_fmtd_text_comments at the driver's width,
    comments are comment texts, and a comment statement has no second comment. *)
 Theorem C09_lib_driver_text_comments :
-  forall e2s np rk key_ok, (forall k, key_ok k = true -> neutral (rk k)) ->
-  forall mw p d, Forall (stmt_ok e2s np rk key_ok mw) p ->
-  format_lib e2s np rk mw p = Some d -> scan_comments (render d) = program_comments p.
+  forall O key_ok, (forall k, key_ok k = true -> neutral (o_record_key O k)) ->
+  forall mw p d, Forall (stmt_ok O key_ok mw) p ->
+  format_lib O mw p = Some d -> scan_comments (render d) = program_comments p.
 Proof. exact lib_driver_text_comments. Qed.
 Check C09_lib_driver_text_comments :
-  forall e2s np rk key_ok, (forall k, key_ok k = true -> neutral (rk k)) ->
-  forall mw p d, Forall (stmt_ok e2s np rk key_ok mw) p ->
-  format_lib e2s np rk mw p = Some d -> scan_comments (render d) = program_comments p.
+  forall O key_ok, (forall k, key_ok k = true -> neutral (o_record_key O k)) ->
+  forall mw p d, Forall (stmt_ok O key_ok mw) p ->
+  format_lib O mw p = Some d -> scan_comments (render d) = program_comments p.
 Print Assumptions C09_lib_driver_text_comments.
 
 Theorem C09_cli_driver_text_comments :
-  forall e2s np rk key_ok, (forall k, key_ok k = true -> neutral (rk k)) ->
-  forall p, Forall (stmt_ok e2s np rk key_ok None) p ->
-  scan_comments (render (format_cli e2s np rk p)) = program_comments p.
+  forall O key_ok, (forall k, key_ok k = true -> neutral (o_record_key O k)) ->
+  forall p, Forall (stmt_ok O key_ok None) p ->
+  scan_comments (render (format_cli O p)) = program_comments p.
 Proof. exact cli_driver_text_comments. Qed.
 Check C09_cli_driver_text_comments :
-  forall e2s np rk key_ok, (forall k, key_ok k = true -> neutral (rk k)) ->
-  forall p, Forall (stmt_ok e2s np rk key_ok None) p ->
-  scan_comments (render (format_cli e2s np rk p)) = program_comments p.
+  forall O key_ok, (forall k, key_ok k = true -> neutral (o_record_key O k)) ->
+  forall p, Forall (stmt_ok O key_ok None) p ->
+  scan_comments (render (format_cli O p)) = program_comments p.
 Print Assumptions C09_cli_driver_text_comments.
 
 (* a two-statement program satisfying stmt_ok with the executable oracles *)
 Example C09_driver_hypotheses_satisfiable :
-  Forall (stmt_ok ex_e2s (needs_parens_tbl parens_table) record_key_impl is_valid_identifier None)
+  Forall (stmt_ok ex_O is_valid_identifier None)
     [St (SComment "// top") None 1 1; St (SExpr ex_commented) (Some "// eol") 2 12].
 Proof.
   repeat constructor; try reflexivity; vm_compute; repeat constructor.
